@@ -35,17 +35,18 @@ Theorem c12_other_schemes_plain : forall c,
 Proof. exact tls_other_schemes_plain. Qed.
 Print Assumptions c12_other_schemes_plain.
 
-(* the Host header of the request parts plays no part: result, wire and marker depend on the URI only *)
-Theorem c12_host_header_irrelevant : forall cfgd s h hh1 hh2 k cov ce sa ca f,
-  let c1 := mkTls cfgd s h hh1 k cov ce sa ca f in
-  let c2 := mkTls cfgd s h hh2 k cov ce sa ca f in
+(* neither the Host header of the request parts nor the request method (CONNECT or not) plays a part:
+   result, wire and marker depend on the URI only *)
+Theorem c12_host_header_irrelevant : forall cfgd s h hh1 hh2 m1 m2 k cov ce sa ca f,
+  let c1 := mkTls cfgd s h hh1 m1 k cov ce sa ca f in
+  let c2 := mkTls cfgd s h hh2 m2 k cov ce sa ca f in
   tls_connect c1 = tls_connect c2 /\ wire_first c1 = wire_first c2 /\ marker_in_clear c1 = marker_in_clear c2.
 Proof. exact tls_hosthdr_irrelevant. Qed.
 Print Assumptions c12_host_header_irrelevant.
 
 (* total: the result type has no panic outcome; every host form yields a result *)
 Example c12_example :
-  tls_connect (mkTls true (Some "WSS") (Some "[::1]") (Some "other.test") HIp true CGood AH2 AH2 FNone)%string = OkTls None AH2
-  /\ tls_connect (mkTls true (Some "https") (Some "a..b") None HInvalid false CGood ANone ANone FNone)%string = ErrHs
-  /\ tls_connect (mkTls true (Some "https") (Some "Example.test") None HDns true CUntrusted ANone ANone FNone)%string = ErrHs.
+  tls_connect (mkTls true (Some "WSS") (Some "[::1]") (Some "other.test") true HIp true CGood AH2 AH2 FNone)%string = OkTls None AH2
+  /\ tls_connect (mkTls true (Some "https") (Some "a..b") None false HInvalid false CGood ANone ANone FNone)%string = ErrHs
+  /\ tls_connect (mkTls true (Some "https") (Some "Example.test") None false HDns true CUntrusted ANone ANone FNone)%string = ErrHs.
 Proof. vm_compute. auto. Qed.
